@@ -54,6 +54,12 @@ class Endpoint:
         self.session = None
         self.closed = False  # closed by the client
         self.closed_by_peer = False  # closed by the target (after UnRegisterSession)
+        self.register_reply_lost = False  # the RegisterSession reply never reached the client: to the client this is still "before registration"
+
+    def note_lost(self, data):
+        """The network lost these reply bytes (fault injection)."""
+        if data[:2] == b"\x65\x00":
+            self.register_reply_lost = True
 
     def feed(self, data):
         """Bytes from the client; returns the bytes the target sends back."""
@@ -236,7 +242,7 @@ class Target:
         if fr.session == 0 or fr.session not in self.sessions or fr.session != self.ep.session:
             if connected:
                 self.event("C10/I1/unitdata-without-session", f"SendUnitData with session {fr.session:#x}; registered: {sorted(self.sessions)}")
-            elif not (fr.session == 0 and self.ep.session is None):
+            elif not (fr.session == 0 and (self.ep.session is None or self.ep.register_reply_lost)):
                 # handle 0 while no session has been granted on this TCP connection is "before registration"
                 self.event("C11/session-handle", f"SendRRData with session {fr.session:#x}; granted on this TCP connection: {self.ep.session!r}")
             if not connected and len(fr.body) > 22 and fr.body[16] in (0x54, 0x5B) and fr.body[17:22] == b"\x02\x20\x06\x24\x01":
